@@ -115,6 +115,10 @@ def gen(rng, tier, dist):
     return out
 
 def canon(case, line):
+    if line.startswith("UNDECLARED "):
+        # the model driver evaluated `declared a (apropos_of_tree root)` for this application and it does
+        # not hold (hypothesis of C13_perm_invariant / C12's sorted pipeline): shown as a disagreement
+        return line[:200]
     r = parse_out(line)
     if r is None:
         return line
